@@ -38,10 +38,6 @@ def parse_op(o):
     return (o[0], int(o[1:]) if len(o) > 1 else None)
 
 
-AZ_EXTRA = 'azure: read(-1) after bytes were already consumed re-downloads `length` bytes from the advanced offset (bytes past the requested range are returned)'
-AZ_416 = 'azure: read(-1) issues download_blob at an offset at or past the end of the blob and the 416 HttpResponseError escapes (no UnexpectedEOFError / b"")'
-
-
 class C23(Prop):
     id = 'C23'
     title = 'Ranged reads return exactly the requested bytes'
@@ -54,9 +50,9 @@ class C23(Prop):
     level_text = ('Theorems for all blobs, offsets, lengths, chunkings and read patterns: the Range header built by the GCS/S3 code selects '
                   'exactly blob[start:start+length] (clipped at EOF, 416 iff start >= size); TruncatedReadableBinaryIO never yields past its '
                   'limit and a drained reader yields exactly the range; read_range returns exactly the span or UnexpectedEOFError on all four '
-                  'backends; open_from + any read pattern is exact on local/GCS/S3. For Azure the full statement is refuted on a witness '
-                  '(read(-1) after a partial read) and proved under the excluding hypothesis. The model is tied to the real code by '
-                  'differential runs over all sizes 0..N x offsets x lengths x read patterns on every run.')
+                  'backends; open_from + any read pattern (including read(-1) after partial reads) is exact on all four backends and no SDK '
+                  'exception escapes. The model is tied to the real code by differential runs over all sizes 0..N x offsets x lengths x '
+                  'read patterns on every run; the two Azure defects this check found (repaired in 86ee8e0ea) are kept as old-stream examples.')
     level_note = ('Trusted: Lean kernel; the in-memory object store (RFC 7233 byte ranges for GCS/S3, download_blob(offset,length) for Azure, '
                   '416 rules) stands in for the cloud services and SDKs; aiohttp.StreamReader is the real one; the hand-written model agrees '
                   'with the Python classes only as far as the correspondence cases show.')
@@ -366,54 +362,7 @@ class C23(Prop):
         return (json.dumps(c, sort_keys=True) if nontrivial else None, tags)
 
     def finding_key(self, c, msg):
-        """The two Azure read(-1) defects are keyed by their exact predicted wrong behaviour; anything else by the full case."""
-        if c['be'] == 'azure' and c['kind'] == 'from':
-            c = {**c, 'kind': 'open', 'len': None, 'ops': ['a']}       # read_from = open_from(start) + read(-1)
-        if c['be'] == 'azure' and c['kind'] == 'open' and c['len'] != 0:
-            try:
-                _, _, status, out, flags = self._run(c)
-            except Exception:  # noqa: BLE001
-                return json.dumps(c, sort_keys=True)
-            pred = self._azure_defect_prediction(c)
-            if pred is not None and not flags and (status, list(out)) == (pred[0], pred[1]):
-                return pred[2]
         return json.dumps(c, sort_keys=True)
-
-    @staticmethod
-    def _azure_defect_prediction(c):
-        """(status, bytes, key) the unchanged AzureReadableStream produces when the only thing going wrong is read(-1) re-issuing
-        download_blob(offset=<advanced or past-EOF offset>, length=<original length>); None if the case does not have that shape"""
-        blob, start, ln = c['blob'], c['start'], c['len']
-        want = blob[start:] if ln is None else blob[start:start + ln]
-        out, pos = [], 0
-        for i, o in enumerate(c['ops']):
-            kind, n = parse_op(o)
-            if kind == 'x':
-                if len(want) - pos < n:
-                    return None
-                out += want[pos:pos + n]
-                pos += n
-            elif kind == 'r':
-                k = min(n, len(want) - pos)
-                out += want[pos:pos + k]
-                pos += k
-                if k < n:
-                    return None          # short read sets _eof: later read(-1) returns b''
-            elif kind == 'd':
-                return None
-            else:
-                off = start + pos
-                if off >= len(blob):
-                    return ('http416', out, 'C23:azure:read(-1)-at-offset>=size:http416-escapes')
-                if pos == 0:
-                    return None
-                extra = blob[off:] if ln is None else blob[off:off + ln]
-                if out + extra == want:
-                    return None
-                # read(-1) sets _eof; every later op returns b'' / raises, and the surplus is already there
-                rest_ok = all(parse_op(p)[0] in ('a', 'r', 'd') or parse_op(p)[1] == 0 for p in c['ops'][i + 1:])
-                return ('ok', out + extra, 'C23:azure:read(-1)-after-partial-read:length-not-reduced') if rest_ok else None
-        return None
 
     def shrink(self, c, fails):
         cur = json.loads(json.dumps(c))
